@@ -49,6 +49,9 @@ type Case struct {
 	BaseTpl bool          `json:"base_tpl,omitempty"` // all goroutines use the single base template (Load/New from it)
 	Failing bool          `json:"failing,omitempty"`  // a further goroutine keeps making renders that fail half-way
 	NilData bool          `json:"nil_data,omitempty"` // every call passes no data at all (nil map)
+	// PtrShare: the fixed site of ptrshare_test.go instead of a catalogue program: one struct value
+	// is root data (by pointer) for some requests and a nested pointer field of others' data.
+	PtrShare bool `json:"ptr_share,omitempty"`
 }
 
 // stuck is set once a concurrent phase did not finish: the blocked goroutines cannot be stopped
@@ -277,6 +280,17 @@ func check(c Case) error {
 		return nil
 	}
 	if stuck.Load() {
+		return nil
+	}
+	if c.PtrShare {
+		run.Inflight(prop, "case", c)
+		before, _ := raceLogSize()
+		if err := checkPtrShare(c); err != nil {
+			return err
+		}
+		if after, text := raceLogSize(); after > before {
+			return fmt.Errorf("the race detector reported a data race during this execution:\n%s", raceSummary(text, before))
+		}
 		return nil
 	}
 	if c.Gen != nil && compose.TooLarge(*c.Gen) {
@@ -585,6 +599,19 @@ func TestProp(t *testing.T) {
 				run.Each(rec, "enum", c, nt, cls, check)
 			}
 		}
+	}
+	// shared read-only values: root data of some requests, nested pointer of others
+	for _, pc := range []Case{
+		{Prog: "ptrshare", PtrShare: true, N: 1, Reps: 2, Entries: []string{"load"}, Procs: 1},
+		{Prog: "ptrshare", PtrShare: true, N: 1, Reps: 2, Entries: []string{"vue"}, Procs: 1},
+		{Prog: "ptrshare", PtrShare: true, N: 8, Reps: reps, Entries: []string{"load", "file", "string", "vue"}, Procs: 16},
+		{Prog: "ptrshare", PtrShare: true, N: 16, Reps: reps, Entries: []string{"vue", "load"}, Procs: 4},
+	} {
+		i++
+		if i%shards != shard {
+			continue
+		}
+		run.Each(rec, "ptrshare", pc, true, []string{"shared-value-is-root-data-and-nested-pointer", fmt.Sprintf("n=%d", pc.N)}, check)
 	}
 	names := cat.Names()
 	run.Rapid(t, rec, "random", func(t *rapid.T) Case {
